@@ -60,6 +60,13 @@ func GenNetwork(t *rapid.T, o NetOpts) (*consensus.Network, types.Block) {
 	n.HardforkV2.AllowHeight = hs[7]
 	n.HardforkV2.RequireHeight = hs[8]
 	n.HardforkV2.FinalCutHeight = hs[9]
+	if n.HardforkV2.RequireHeight == 0 {
+		// the genesis block allocates coins in a v1 transaction, so v1 must be legal at height 0
+		n.HardforkV2.RequireHeight = 1
+		if n.HardforkV2.FinalCutHeight == 0 {
+			n.HardforkV2.FinalCutHeight = 1
+		}
+	}
 	if o.V1Only {
 		n.HardforkV2.AllowHeight, n.HardforkV2.RequireHeight, n.HardforkV2.FinalCutHeight = 1<<30, 1<<30+10, 1<<30+20
 	}
